@@ -36,6 +36,8 @@ inductive PyExc where
   | runtimeError | recursionError
   | lookupError | keyError | indexError
   | attributeError | assertionError | memoryError | overflowError | stopIteration
+  /-- `asyncio.InvalidStateError(Exception)`: `set_result` on a future that is already done -/
+  | invalidStateError
   -- aiorpcx.jsonrpc: CodeMessageError(Exception), RPCError / ProtocolError(CodeMessageError)
   | codeMessageError | rpcError | protocolError
   deriving DecidableEq, Repr, Inhabited
@@ -60,6 +62,7 @@ def base : PyExc → Option PyExc
   | memoryError => some exception
   | overflowError => some exception            -- via ArithmeticError
   | stopIteration => some exception
+  | invalidStateError => some exception
   | codeMessageError => some exception
   | rpcError => some codeMessageError
   | protocolError => some codeMessageError
@@ -83,14 +86,15 @@ def name : PyExc → String
   | attributeError => "AttributeError" | assertionError => "AssertionError"
   | memoryError => "MemoryError" | overflowError => "OverflowError"
   | stopIteration => "StopIteration"
+  | invalidStateError => "InvalidStateError"
   | codeMessageError => "CodeMessageError" | rpcError => "RPCError"
   | protocolError => "ProtocolError"
 
 def all : List PyExc :=
   [baseException, exception, typeError, valueError, unicodeDecodeError, jsonDecodeError,
    runtimeError, recursionError, lookupError, keyError, indexError, attributeError,
-   assertionError, memoryError, overflowError, stopIteration, codeMessageError, rpcError,
-   protocolError]
+   assertionError, memoryError, overflowError, stopIteration, invalidStateError, codeMessageError,
+   rpcError, protocolError]
 
 def ofName (s : String) : Option PyExc := all.find? (fun e => e.name == s)
 
